@@ -429,6 +429,25 @@ HAND_PROGRAMS = [
             ["asg", "<t>", "<t> + <dt>"],
             ["if", "<p>n > 3", [["switch", "init"]]],
             ["yield", "<state>y", "y", "<t>", "fin"]]}]},
+    # the same method with its persistent variables, locals and phases spelt in the other letter case: generated
+    # before three_phases in one lane and after it in another, so that names a separate generator object handed out
+    # earlier in the process and that differ from these only in case (the Fortran name managers compare
+    # case-insensitively) would show in the text (seeded C15_5b: one name map shared by all generators)
+    {"name": "three_phases_upper", "initial": "Init", "steps": 4, "phases": [
+        {"name": "Init", "next": "Mid", "ops": [
+            ["asg", "<p>K", "<func>f(<t>, <state>y)"],
+            ["asg", "<p>N", "1"]]},
+        {"name": "Mid", "next": "Zfin", "ops": [
+            ["asg", "U", "<p>K + <state>y"],
+            ["asg", "<p>N", "<p>N + 1"],
+            ["if", "<p>N > 2", [["asg", "<state>y", "U"]], [["asg", "<state>y", "U + <p>K"]]],
+            ["yield", "<state>y", "y", "<t>", "Mid"]]},
+        {"name": "Zfin", "next": "Mid", "ops": [
+            ["asg", "V", "<func>f(<t>, <state>y)"],
+            ["asg", "<state>y", "V"],
+            ["asg", "<t>", "<t> + <dt>"],
+            ["if", "<p>N > 3", [["switch", "Init"]]],
+            ["yield", "<state>y", "y", "<t>", "Fin"]]}]},
     # the pair call twice, with scalars sharing the last use, in two phases one of which is
     # called "temp" (its statement ids temp_0, temp_1, ... collide with the generated ids)
     {"name": "temp_phase", "initial": "temp", "steps": 3, "phases": [
@@ -1493,6 +1512,10 @@ def gen_programs(tier, seed):
     for i in range(nrand):
         p = random_program(rng, i)
         progs.append(lengthen(p) if i % 4 == 3 else p)      # every fourth one with long identifiers
+    # the case twin goes last: a lane rotated by more than three_phases' index then generates it BEFORE
+    # three_phases, the unrotated lanes after it
+    twins = [p for p in progs if p["name"] == "three_phases_upper"]
+    progs = [p for p in progs if p["name"] != "three_phases_upper"] + twins
     seen, out = set(), []
     for p in progs:
         key = json.dumps([p["phases"], p.get("fopts")], sort_keys=True)
